@@ -115,7 +115,12 @@ class S:
             return S(self.re * q, -self.im * q)
         return S(self.re / den, -self.im / den)
 
-    def __truediv__(self, o): return self * tos(o).recip()
+    def __truediv__(self, o):
+        o = tos(o)
+        of = getattr(o, '_absof', None)
+        if DEEP[0] and of is not None and self.iscx and z3.eq(of[0], self.re) and z3.eq(of[1], self.im):
+            return unit_phasor(self, o)
+        return self * o.recip()
     def __rtruediv__(self, o): return tos(o) * self.recip()
 
     def __pow__(self, p):
@@ -175,6 +180,10 @@ def uf1(name, x):
             x = S(x.re)
         elif name == 'log':
             # principal complex logarithm
+            if getattr(x, '_unit', False):
+                t = atan2(S(x.im), S(x.re))
+                CTX.defs.append(z3.And(UF['cos'](t.re) == x.re, UF['sin'](t.re) == x.im))    # (c, s) on the unit circle: cos/sin of its angle
+                return S(z3.RealVal(0), t.re)
             return S(uf1('log', fabs(x)).re, atan2(S(x.im), S(x.re)).re)
         else:
             raise NotImplementedError(f'{name} of a complex argument')
@@ -215,10 +224,25 @@ def sqrt(x):
     return S(s)
 
 
+def unit_phasor(z, n):
+    """z / |z| as a pair (c, s) with n*c = re z, n*s = im z, c^2 + s^2 = 1 (a consequence for n != 0, which division assumes)"""
+    CTX.assume.append(n.re != 0)
+    c_, s_ = CTX.fresh('uc'), CTX.fresh('us')
+    CTX.defs.append(z3.And(n.re * c_ == z.re, n.re * s_ == z.im, c_ * c_ + s_ * s_ == 1,
+                           z.re * s_ - z.im * c_ == 0, z.re * c_ + z.im * s_ == n.re))      # the last two follow from the first three
+    u = S(c_, s_)
+    u._unit = True
+    return u
+
+
 def fabs(x):
     x = tos(x)
     if x.iscx:
-        return sqrt(S(x.re * x.re + x.im * x.im))
+        if getattr(x, '_unit', False):
+            return S(z3.RealVal(1))
+        out = sqrt(S(x.re * x.re + x.im * x.im))
+        out._absof = (x.re, x.im)
+        return out
     return S(z3.If(x.re >= 0, x.re, -x.re))
 
 
@@ -365,6 +389,129 @@ def trig_axioms(terms=None):
             ax.append(z3.Implies(b1 != 0, UF2['pow'](b1, p1) * UF2['pow'](b2, p2) == 1))
     for a in uniq(apps['sqrt_']):
         ax.append(z3.Implies(a >= 0, z3.And(UF['sqrt_'](a) >= 0, UF['sqrt_'](a) * UF['sqrt_'](a) == a)))
+    return ax
+
+
+DEEP = [False]
+
+
+def _pi_multiple(t):
+    """Fraction q when t is syntactically q*pi, else None"""
+    if z3.eq(t, PI):
+        return Fraction(1)
+    if z3.is_app(t) and t.decl().kind() == z3.Z3_OP_MUL and t.num_args() == 2 and z3.is_rational_value(t.arg(0)) and z3.eq(t.arg(1), PI):
+        return t.arg(0).as_fraction()
+    return None
+
+
+def deep_axioms(terms, max_rounds=4):
+    """
+    Further true identities, instantiated on the applications that occur (opt-in: DEEP[0]):
+    addition formulas on arguments that are sums, parity on negated arguments, exact values at multiples of pi/6,
+    sin/cos of atan2(y, x) as y/r, x/r with r = sqrt(x^2 + y^2), exp(log w) = w, exp(-a) exp(a) = 1, exp of a sum.
+    Every formula added is valid over the reals (guards where a function is undefined).
+    """
+    ax, done = [], set()
+    r3 = z3.Real('__sqrt3')
+    ax.append(z3.And(r3 > 0, r3 * r3 == 3))
+    table = {0: (z3.RealVal(1), z3.RealVal(0)), 1: (r3 / 2, z3.RealVal(1) / 2), 2: (z3.RealVal(1) / 2, r3 / 2), 3: (z3.RealVal(0), z3.RealVal(1))}
+
+    def cs(k):
+        k = k % 12
+        q, r = divmod(k, 3)
+        c_, s_ = table[r]
+        for _ in range(q):
+            c_, s_ = -s_, c_
+        return c_, s_
+
+    def trig(arg):
+        if arg.get_id() in done:
+            return
+        done.add(arg.get_id())
+        sn, cn = UF['sin'](arg), UF['cos'](arg)
+        a = z3.simplify(arg)
+        if not z3.eq(a, arg):
+            ax.append(z3.And(sn == UF['sin'](a), cn == UF['cos'](a)))
+            trig(a)
+            return
+        ax.append(sn * sn + cn * cn == 1)
+        q = _pi_multiple(a)
+        if q is not None:
+            if (q * 6).denominator == 1:
+                c_, s_ = cs(int(q * 6))
+                ax.append(z3.And(cn == c_, sn == s_))
+            return
+        if z3.is_app(a) and a.decl().kind() == z3.Z3_OP_ADD and a.num_args() >= 2:
+            p = a.arg(0)
+            rest = a.arg(1) if a.num_args() == 2 else z3.Sum(*[a.arg(i) for i in range(1, a.num_args())])
+            sp, cp, sr, cr = UF['sin'](p), UF['cos'](p), UF['sin'](rest), UF['cos'](rest)
+            ax.append(z3.And(sn == sp * cr + cp * sr, cn == cp * cr - sp * sr))
+            trig(p)
+            trig(rest)
+            return
+        if z3.is_app(a) and a.decl().kind() == z3.Z3_OP_MUL and a.num_args() == 2 and z3.is_rational_value(a.arg(0)) \
+                and a.arg(0).as_fraction() == -1:
+            qq = a.arg(1)
+            ax.append(z3.And(sn == -UF['sin'](qq), cn == UF['cos'](qq)))
+            trig(qq)
+            return
+        if z3.is_app(a) and a.decl().kind() == z3.Z3_OP_UNINTERPRETED and a.decl().name() == 'atan2':
+            y, x = a.arg(0), a.arg(1)
+            rr = UF['sqrt_'](x * x + y * y)
+            ax.append(z3.And(rr >= 0, rr * rr == x * x + y * y))
+            ax.append(z3.Implies(rr != 0, z3.And(rr * cn == x, rr * sn == y)))
+
+    def expo(arg):
+        key = ('e', arg.get_id())
+        if key in done:
+            return
+        done.add(key)
+        ex = UF['exp'](arg)
+        ax.append(ex > 0)
+        a = z3.simplify(arg)
+        if not z3.eq(a, arg):
+            ax.append(ex == UF['exp'](a))
+            expo(a)
+            return
+        if z3.is_rational_value(a) and a.as_fraction() == 0:
+            ax.append(ex == 1)
+            return
+        if z3.is_app(a) and a.decl().kind() == z3.Z3_OP_UNINTERPRETED and a.decl().name() == 'log':
+            ax.append(z3.Implies(a.arg(0) > 0, ex == a.arg(0)))
+            return
+        if z3.is_app(a) and a.decl().kind() == z3.Z3_OP_MUL and a.num_args() == 2 and z3.is_rational_value(a.arg(0)) \
+                and a.arg(0).as_fraction() == -1:
+            ax.append(ex * UF['exp'](a.arg(1)) == 1)
+            expo(a.arg(1))
+            return
+        if z3.is_app(a) and a.decl().kind() == z3.Z3_OP_ADD and a.num_args() >= 2:
+            p = a.arg(0)
+            rest = a.arg(1) if a.num_args() == 2 else z3.Sum(*[a.arg(i) for i in range(1, a.num_args())])
+            ax.append(ex == UF['exp'](p) * UF['exp'](rest))
+            expo(p)
+            expo(rest)
+
+    ax.append(UF['exp'](z3.RealVal(0)) == 1)
+    ax.append(UF['log'](z3.RealVal(1)) == 0)
+    pending = list(terms)
+    for _ in range(max_rounds):
+        apps = collect_apps(pending)
+        n0 = len(ax)
+        for a in apps['sin'] + apps['cos']:
+            trig(a)
+        for a in apps['exp']:
+            expo(a)
+        for w in apps['log']:
+            lw = UF['log'](w)
+            key = ('l', lw.get_id())
+            if key not in done:
+                done.add(key)
+                ax.append(z3.Implies(w > 0, UF['exp'](lw) == w))       # links exp(s) to w for any symbol s equated to log(w)
+        for y, x in apps['atan2']:
+            trig(UF2['atan2'](y, x))
+        if len(ax) == n0:
+            break
+        pending = ax[n0:]
     return ax
 
 
@@ -760,7 +907,7 @@ def check_neq(a, b, extra=(), timeout_ms=10000):
         neq = z3.Or(neq, a._im() != b._im())
     side = list(CTX.defs) + list(CTX.assume) + list(extra)
     terms = [a.re, b.re, a._im(), b._im()] + side
-    for f in side + trig_axioms(terms):
+    for f in side + trig_axioms(terms) + (deep_axioms(terms) if DEEP[0] else []):
         s.add(f)
     s.add(neq)
     t = time.time()
